@@ -11,6 +11,7 @@ def build_array(exe, root, rng, clean=True, nparity=None, ndisks=None, weird=Tru
     a = e2e.Arr(root, exe, ndisks=nd, nparity=npar, hashsize=kw.get('hashsize') or rng.choice([16, 16, 8, 4]),
                 splits=kw.get('splits') or rng.choice([1, 1, 1, 2, 3]), ncontent=kw.get('ncontent') or 1 + rng.below(3), zmode=zmode)
     s = sim.Sim(a, rng.fork(), weird_names=weird)
+    s.track_lengths = bool(kw.get('track'))
     s.populate(2 + rng.below(4))
     force = rng.choice([[], ['--test-force-murmur3'], ['--test-force-spooky2']])
     s.sync(*force)
